@@ -672,6 +672,13 @@ func (fr *Frame) modularCall(fc *FuncContract, callee *ssa.Function, c *ssa.Call
 		post.vars["result"] = TV{res[0], sig.Results().At(0).Type()}
 	}
 	for _, e := range fc.Ensures {
+		// The channel-operation ghosts are per-activation counters: they count
+		// the operations the function under verification executes in its own
+		// body. What a callee's contract says about its own counters, and
+		// about names bound by its own "let" clauses, means nothing to a caller.
+		if mentionsAny(e.Src, chanGhostNames) || mentionsLet(fc, e.Src) {
+			continue
+		}
 		vc.assumeClause(pc, post, e)
 	}
 	for _, fname := range fc.Fresh {
@@ -685,6 +692,44 @@ func (fr *Frame) modularCall(fc *FuncContract, callee *ssa.Function, c *ssa.Call
 		}
 	}
 	return res
+}
+
+// mentionsAny reports whether the clause text uses one of the names as an
+// identifier.
+func mentionsAny(src string, names []string) bool {
+	for _, n := range names {
+		from := 0
+		for {
+			k := strings.Index(src[from:], n)
+			if k < 0 {
+				break
+			}
+			a, b := from+k, from+k+len(n)
+			okL := a == 0 || !isIdentByte(src[a-1])
+			okR := b == len(src) || !isIdentByte(src[b])
+			if okL && okR {
+				return true
+			}
+			from = b
+		}
+	}
+	return false
+}
+
+func isIdentByte(c byte) bool {
+	return c == '_' || (c >= '0' && c <= '9') || (c >= 'a' && c <= 'z') || (c >= 'A' && c <= 'Z') || c >= 0x80
+}
+
+// mentionsLet reports whether the clause uses a name bound by one of the
+// contract's own "at call ... let" clauses.
+func mentionsLet(fc *FuncContract, src string) bool {
+	var names []string
+	for _, cs := range fc.CallSites {
+		if cs.Let != "" {
+			names = append(names, cs.Let)
+		}
+	}
+	return len(names) > 0 && mentionsAny(src, names)
 }
 
 // scalarArgs reports whether all arguments are heap-independent values.
@@ -1041,6 +1086,29 @@ func (fr *Frame) next(in *ssa.Next, st *State, pc Term) {
 // --------------------------------------------------------------- channels
 
 func (fr *Frame) send(in *ssa.Send, st *State, pc Term) {
+	// "at call send assert ...": call-site assertions of the enclosing
+	// contract on send statements (arg0 = channel, arg1 = value sent)
+	if fr.top && fr.contract != nil {
+		name := "builtin.send"
+		fr.callOrd[name]++
+		for _, cs := range fr.contract.CallSites {
+			if cs.Clause.Kind != "callsite" || !calleeMatches(cs.Callee, name) {
+				continue
+			}
+			if cs.Ordinal != 0 && cs.Ordinal != fr.callOrd[name] {
+				continue
+			}
+			fr.csMatched[cs] = true
+			env := fr.specEnv(st, pc)
+			vars := map[string]TV{"arg0": {fr.val(in.Chan), in.Chan.Type()}, "arg1": {fr.val(in.X), in.X.Type()}}
+			g, err := env.with(vars).evalBool(cs.Clause.E)
+			if err != nil {
+				fr.vc.specError(cs.Clause, err)
+			} else {
+				fr.vc.oblige("callsite", cs.Clause.Label, fmt.Sprintf("send#%d:%s", fr.callOrd[name], labelOr(cs.Clause.Label, "assert")), pc, g, cs.Clause.Src)
+			}
+		}
+	}
 	fr.vc.chanSendObligation(fr, in.Chan, fr.val(in.X), st, pc)
 	fr.vc.chanCount("chsends", fr.val(in.Chan), tTrue, st)
 	fr.vc.chanLast(fr.val(in.Chan), fr.val(in.X), tTrue, st)
